@@ -30,10 +30,11 @@ const (
 	KTime                 // advance virtual time
 	KFault                // environment fault: drop, dup, delay, inject ...
 	KEnvSched             // environment scheduling deviation (e.g. spawn closer)
+	KStall                // keep one parked thread off the processor for a while (scheduling)
 )
 
 func (k Kind) String() string {
-	return [...]string{"thread", "select", "deliver", "time", "fault", "envsched"}[k]
+	return [...]string{"thread", "select", "deliver", "time", "fault", "envsched", "stall"}[k]
 }
 
 // IsFault reports whether choosing a non-default alternative of this kind
@@ -63,6 +64,9 @@ type Thread struct {
 	lastTook int
 	prefMiss bool
 	op       string
+	// stalledUntil: the thread is kept off the processor until that
+	// virtual time (a KStall deviation); it is not listed as runnable.
+	stalledUntil time.Duration
 	// wasBlocked is set by the scheduler when it finds the thread blocked
 	// in a real operation at a quiescent state; the next Woke call then
 	// parks, so that a thread woken by another thread's operation or by a
@@ -132,7 +136,13 @@ type Config struct {
 	// although threads are parked (all runnable threads are starved for
 	// that long). Default 1s.
 	StarveQuantum time.Duration
-	Trace         bool // keep the full trace text
+	// StallQuantum > 0 offers, for every parked thread, the deviation
+	// "this thread does not get the processor for StallQuantum" (a slow
+	// or descheduled goroutine) while everything else goes on. A plain
+	// thread switch cannot express that: the preempted thread is the
+	// default choice again as soon as the others block.
+	StallQuantum time.Duration
+	Trace        bool // keep the full trace text
 	// DrainTime is how much virtual time the drain phase lets pass before
 	// the leak oracle looks at what is still alive.
 	DrainTime time.Duration
@@ -524,11 +534,12 @@ func (s *Sched) collect() {
 
 func (s *Sched) parked() []*Thread {
 	var out []*Thread
-	if s.cur != nil && s.cur.state.Load() == stParked {
+	now := s.Now()
+	if s.cur != nil && s.cur.state.Load() == stParked && s.cur.stalledUntil <= now {
 		out = append(out, s.cur)
 	}
 	for _, t := range s.threads {
-		if t != s.cur && t.state.Load() == stParked {
+		if t != s.cur && t.state.Load() == stParked && t.stalledUntil <= now {
 			out = append(out, t)
 		}
 	}
@@ -650,9 +661,10 @@ func (s *Sched) loop() {
 		acts := s.env.Actions()
 
 		type alt struct {
-			a   Alt
-			th  *Thread
-			act *Action
+			a     Alt
+			th    *Thread
+			act   *Action
+			stall *Thread
 		}
 		var alts []alt
 		for _, t := range par {
@@ -686,6 +698,11 @@ func (s *Sched) loop() {
 		for i := range acts {
 			if !acts[i].Default && !(acts[i].OnlyIdle && len(par) > 0) {
 				alts = append(alts, alt{a: Alt{acts[i].Kind, acts[i].Label}, act: &acts[i]})
+			}
+		}
+		if s.cfg.StallQuantum > 0 {
+			for _, t := range par {
+				alts = append(alts, alt{a: Alt{KStall, t.site}, stall: t})
 			}
 		}
 		if len(alts) == 0 {
@@ -741,6 +758,12 @@ func (s *Sched) loop() {
 		case ch.act != nil:
 			s.note("env " + ch.act.Label)
 			ch.act.Do()
+		case ch.stall != nil:
+			t := ch.stall
+			t.stalledUntil = s.Now() + s.cfg.StallQuantum
+			s.note(fmt.Sprintf("stall T%d @%s for %v", t.ID, t.site, s.cfg.StallQuantum))
+			// wake the scheduler when the thread becomes runnable again
+			time.AfterFunc(s.cfg.StallQuantum, s.Poke)
 		default:
 			if len(par) > 0 {
 				// Starve every runnable thread for one quantum.
